@@ -51,6 +51,10 @@ def op_lit(op):
         return "(OSetLink %s %s %s)" % (cN(op[1]), op[2], "(@None N)" if op[3] is None else "(Some %s)" % cN(op[3]))
     if t == "set_attr":
         return "(OSetAttr %s %s %s)" % (cN(op[1]), op[2], opt_tok(op[3]))
+    if t == "probe":
+        return "(OProbe %s %s)" % (cN(op[1]), op[2])
+    if t == "probe_link":
+        return "(OProbeLink %s %s)" % (cN(op[1]), op[2])
     if t == "set_auto":
         return "(OSetAuto %s)" % cbool(op[1])
     if t == "reopen":
